@@ -102,5 +102,5 @@ def account(rep: Report, res, verdicts, nontrivial, rule: str, inputs) -> None:
         "exhaustive": False,
         "samples": [s["id"] for s in nt[:3]] + [s["id"] for s in nt[-2:]],
     })
-    if len(ok) and not nt:
+    if len(ok) and not nt and not rep.violations:
         raise tlc.MachineryError("vacuous run: no non-trivial input")
